@@ -112,6 +112,12 @@ class Ctx:
     def unit(self, short: str) -> Unit:
         return self.pkg.unit(short)
 
+    def inlined(self, unit: Unit, policy=None, keep=()) -> Unit:
+        """The view of ``unit`` with calls of private same-module helpers replaced by their
+        bodies (asl.inline): what the function does, wherever the statements were moved."""
+        from .inline import default_policy, inlined_view
+        return inlined_view(self.pkg, self.vals, unit, policy or default_policy, tuple(keep))
+
 
 def _unit_name(unit: Any) -> str:
     if isinstance(unit, Unit):
